@@ -21,6 +21,7 @@ RULE = (
     'hierarchical likelihood. Oracle: the internal consistency the property states (an invariant), the layout model for '
     '"IDs mark exactly the individual-level entries". Non-trivial: composite with >=2 sub-models or >=1 '
     'reconfiguration. Distinct = structural projection.')
+RULE += (' ' + 'Added: enumerated [fix k, set_n_ids ...] programs; display names and fixed parameters (ReducedMechanisticModel) in mechanistic histories.')
 ASSUMPTIONS = [
     '"accepted vector length" is decided by evaluating the object at a vector of the reported length (no exception, '
     'gradient of that length); parameter VALUES are irrelevant here (positive values are used; -inf scores are fine)',
